@@ -595,10 +595,17 @@ impl PutErr {
 
 pub type CallFuture = Pin<Box<dyn Future<Output = CallResult>>>;
 
+/// A call made through the blocking `Dht` API on a helper thread of its own.
+struct SyncThread {
+    rx: std::sync::mpsc::Receiver<CallResult>,
+    tid: Arc<std::sync::atomic::AtomicI32>,
+}
+
 pub struct Call {
     pub node: usize,
     pub label: String,
     fut: Option<CallFuture>,
+    sync: Option<SyncThread>,
     pub result: Option<CallResult>,
     pub issued_at: u64,
     pub done_at: Option<u64>,
@@ -651,6 +658,9 @@ pub struct World {
     pub steps: u64,
     pub track_states: bool,
     pub state_digests: HashSet<u64>,
+    /// Route the `call_*` helpers through the blocking `Dht` API (one helper thread per call)
+    /// instead of the async one.
+    pub sync_api: bool,
     next_dgram_id: u64,
 }
 
@@ -748,6 +758,7 @@ impl World {
             steps: 0,
             track_states: false,
             state_digests: HashSet::new(),
+            sync_api: false,
             next_dgram_id: 0,
         }
     }
@@ -997,6 +1008,8 @@ impl World {
         // Calls waiting on this node can never complete; drop their futures unpolled.
         for c in self.calls.iter_mut().filter(|c| c.node == node) {
             c.fut = None;
+            // the helper thread of a blocking call sees its channel close and ends by itself
+            c.sync = None;
         }
         let n = &mut self.nodes[node];
         n.alive = false;
@@ -1319,6 +1332,7 @@ impl World {
             node,
             label: label.to_string(),
             fut: Some(fut),
+            sync: None,
             result: None,
             issued_at: self.now,
             done_at: None,
@@ -1327,9 +1341,89 @@ impl World {
         id
     }
 
+    /// Register a call made through the blocking API: `f` runs on a helper thread with a clone
+    /// of the node's `Dht` handle. The world only proceeds once that thread has either finished
+    /// or gone to sleep waiting for the actor (so what it sends, and when, is a function of the
+    /// schedule like everything else).
+    pub fn call_sync(&mut self, node: usize, label: &str, f: Box<dyn FnOnce(Dht) -> CallResult + Send>) -> usize {
+        let id = self.calls.len();
+        let dht: Dht = self.dht(node).as_sync().clone();
+        let (tx, rx) = std::sync::mpsc::channel();
+        let tid = Arc::new(std::sync::atomic::AtomicI32::new(0));
+        let tid2 = tid.clone();
+        std::thread::Builder::new()
+            .name(format!("sync-call {label}"))
+            .spawn(move || {
+                tid2.store(unsafe { libc::syscall(libc::SYS_gettid) } as i32, Ordering::SeqCst);
+                let r = crate::checks::quiet(|| catch_unwind(AssertUnwindSafe(move || f(dht))));
+                let r = match r {
+                    Ok(r) => r,
+                    Err(p) => CallResult::Panicked(
+                        p.downcast_ref::<String>()
+                            .cloned()
+                            .or_else(|| p.downcast_ref::<&str>().map(|s| s.to_string()))
+                            .unwrap_or_else(|| "panic".to_string()),
+                    ),
+                };
+                let _ = tx.send(r);
+            })
+            .expect("spawn sync-call thread");
+        self.calls.push(Call {
+            node,
+            label: format!("sync:{label}"),
+            fut: None,
+            sync: Some(SyncThread { rx, tid }),
+            result: None,
+            issued_at: self.now,
+            done_at: None,
+        });
+        self.poll_call(id);
+        id
+    }
+
+    /// Wait (real time) until the helper thread of a blocking call is quiescent: finished, or
+    /// asleep waiting for the actor. Returns its result if it has one.
+    fn settle_sync(st: &SyncThread) -> Option<CallResult> {
+        let started = std::time::Instant::now();
+        let mut asleep_seen = 0;
+        loop {
+            if let Ok(r) = st.rx.try_recv() {
+                return Some(r);
+            }
+            let tid = st.tid.load(Ordering::SeqCst);
+            if tid != 0 {
+                match thread_stat(tid) {
+                    Some(('S', _)) => {
+                        asleep_seen += 1;
+                        if asleep_seen >= 3 {
+                            // a result sent just before going to sleep cannot exist: sending is the thread's last act
+                            if let Ok(r) = st.rx.try_recv() {
+                                return Some(r);
+                            }
+                            return None;
+                        }
+                    }
+                    _ => asleep_seen = 0,
+                }
+            }
+            if started.elapsed() > Duration::from_secs(600) {
+                panic!("MACHINERY: the helper thread of a blocking API call neither finished nor went to sleep within 600 s");
+            }
+            std::thread::yield_now();
+        }
+    }
+
     fn poll_call(&mut self, id: usize) {
         let now = self.now;
         let c = &mut self.calls[id];
+        if let Some(st) = c.sync.as_ref() {
+            if let Some(r) = Self::settle_sync(st) {
+                c.result = Some(r);
+                c.done_at = Some(now);
+                c.sync = None;
+            }
+            return;
+        }
         let Some(fut) = c.fut.as_mut() else { return };
         let waker = Waker::noop();
         let mut cx = Context::from_waker(waker);
@@ -1359,7 +1453,7 @@ impl World {
 
     fn poll_calls(&mut self, node: Option<usize>) {
         for id in 0..self.calls.len() {
-            if self.calls[id].fut.is_some() && node.map(|n| self.calls[id].node == n).unwrap_or(true)
+            if (self.calls[id].fut.is_some() || self.calls[id].sync.is_some()) && node.map(|n| self.calls[id].node == n).unwrap_or(true)
             {
                 self.poll_call(id);
             }
@@ -1381,6 +1475,9 @@ impl World {
     }
 
     pub fn call_bootstrapped(&mut self, node: usize) -> usize {
+        if self.sync_api {
+            return self.call_sync(node, "bootstrapped", Box::new(move |d| CallResult::Bool(d.bootstrapped())));
+        }
         let dht = self.dht(node);
         self.call(
             node,
@@ -1390,6 +1487,9 @@ impl World {
     }
 
     pub fn call_find_node(&mut self, node: usize, target: dht::Id) -> usize {
+        if self.sync_api {
+            return self.call_sync(node, "find_node", Box::new(move |d| CallResult::Nodes(d.find_node(target).to_vec())));
+        }
         let dht = self.dht(node);
         self.call(
             node,
@@ -1399,6 +1499,9 @@ impl World {
     }
 
     pub fn call_get_closest_nodes(&mut self, node: usize, target: dht::Id) -> usize {
+        if self.sync_api {
+            return self.call_sync(node, "get_closest_nodes", Box::new(move |d| CallResult::Nodes(d.get_closest_nodes(target).to_vec())));
+        }
         let dht = self.dht(node);
         self.call(
             node,
@@ -1408,6 +1511,9 @@ impl World {
     }
 
     pub fn call_put_immutable(&mut self, node: usize, value: Vec<u8>) -> usize {
+        if self.sync_api {
+            return self.call_sync(node, "put_immutable", Box::new(move |d| CallResult::Put(d.put_immutable(&value).map_err(|e| PutErr::from_query(&e)))));
+        }
         let dht = self.dht(node);
         self.call(
             node,
@@ -1423,6 +1529,9 @@ impl World {
     }
 
     pub fn call_get_immutable(&mut self, node: usize, target: dht::Id) -> usize {
+        if self.sync_api {
+            return self.call_sync(node, "get_immutable", Box::new(move |d| CallResult::Bytes(d.get_immutable(target).map(|b| b.to_vec()))));
+        }
         let dht = self.dht(node);
         self.call(
             node,
@@ -1439,6 +1548,9 @@ impl World {
         item: dht::MutableItem,
         cas: Option<i64>,
     ) -> usize {
+        if self.sync_api {
+            return self.call_sync(node, "put_mutable", Box::new(move |d| CallResult::Put(d.put_mutable(item, cas).map_err(|e| PutErr::from_mutable(&e)))));
+        }
         let dht = self.dht(node);
         self.call(
             node,
@@ -1460,6 +1572,9 @@ impl World {
         salt: Option<Vec<u8>>,
         more_recent_than: Option<i64>,
     ) -> usize {
+        if self.sync_api {
+            return self.call_sync(node, "get_mutable", Box::new(move |d| CallResult::Mutables(d.get_mutable(&key, salt.as_deref(), more_recent_than).collect())));
+        }
         use futures_lite::StreamExt;
         let dht = self.dht(node);
         self.call(
@@ -1482,6 +1597,9 @@ impl World {
         key: [u8; 32],
         salt: Option<Vec<u8>>,
     ) -> usize {
+        if self.sync_api {
+            return self.call_sync(node, "get_mutable_most_recent", Box::new(move |d| CallResult::Mutable(d.get_mutable_most_recent(&key, salt.as_deref()))));
+        }
         let dht = self.dht(node);
         self.call(
             node,
@@ -1493,6 +1611,9 @@ impl World {
     }
 
     pub fn call_announce_peer(&mut self, node: usize, info_hash: dht::Id, port: Option<u16>) -> usize {
+        if self.sync_api {
+            return self.call_sync(node, "announce_peer", Box::new(move |d| CallResult::Put(d.announce_peer(info_hash, port).map_err(|e| PutErr::from_query(&e)))));
+        }
         let dht = self.dht(node);
         self.call(
             node,
@@ -1508,6 +1629,9 @@ impl World {
     }
 
     pub fn call_get_peers(&mut self, node: usize, info_hash: dht::Id) -> usize {
+        if self.sync_api {
+            return self.call_sync(node, "get_peers", Box::new(move |d| CallResult::Peers(d.get_peers(info_hash).collect())));
+        }
         use futures_lite::StreamExt;
         let dht = self.dht(node);
         self.call(
@@ -1530,6 +1654,9 @@ impl World {
         info_hash: dht::Id,
         signer: dht::SigningKey,
     ) -> usize {
+        if self.sync_api {
+            return self.call_sync(node, "announce_signed_peer", Box::new(move |d| CallResult::Put(d.announce_signed_peer(info_hash, &signer).map_err(|e| PutErr::from_query(&e)))));
+        }
         let dht = self.dht(node);
         self.call(
             node,
@@ -1545,6 +1672,9 @@ impl World {
     }
 
     pub fn call_get_signed_peers(&mut self, node: usize, info_hash: dht::Id) -> usize {
+        if self.sync_api {
+            return self.call_sync(node, "get_signed_peers", Box::new(move |d| CallResult::SignedPeers(d.get_signed_peers(info_hash).collect())));
+        }
         use futures_lite::StreamExt;
         let dht = self.dht(node);
         self.call(
@@ -1567,6 +1697,9 @@ impl World {
         request: dht::PutRequestSpecific,
         extra_nodes: Option<Box<[dht::Node]>>,
     ) -> usize {
+        if self.sync_api {
+            return self.call_sync(node, "put", Box::new(move |d| CallResult::Put(d.put(request, extra_nodes).map_err(|e| PutErr::from_put_error(&e)))));
+        }
         let dht = self.dht(node);
         self.call(
             node,
@@ -1582,6 +1715,9 @@ impl World {
     }
 
     pub fn call_info(&mut self, node: usize) -> usize {
+        if self.sync_api {
+            return self.call_sync(node, "info", Box::new(move |d| CallResult::Info(d.info())));
+        }
         let dht = self.dht(node);
         self.call(
             node,
@@ -1591,6 +1727,9 @@ impl World {
     }
 
     pub fn call_to_bootstrap(&mut self, node: usize) -> usize {
+        if self.sync_api {
+            return self.call_sync(node, "to_bootstrap", Box::new(move |d| CallResult::Strings(d.to_bootstrap())));
+        }
         let dht = self.dht(node);
         self.call(
             node,
@@ -1624,6 +1763,7 @@ impl Drop for World {
         // Pending futures hold channel handles only; drop them first.
         for c in self.calls.iter_mut() {
             c.fut = None;
+            c.sync = None;
         }
         for i in 0..self.nodes.len() {
             if self.nodes[i].blocked {
@@ -1647,6 +1787,45 @@ impl Drop for World {
         *shared() = None;
         let mut live = WORLD_LIVE.lock().unwrap_or_else(|e| e.into_inner());
         *live = false;
+    }
+}
+
+/// Run a blocking operation of the library on a helper thread while every actor is parked:
+/// `Some(result)` if it returns, `None` if the thread goes to sleep instead (nothing can wake it
+/// while no actor runs, so it would block for ever; the thread is leaked).
+pub fn run_blocking<T: Send + 'static>(f: impl FnOnce() -> T + Send + 'static) -> Option<T> {
+    let (tx, rx) = std::sync::mpsc::channel();
+    let tid = Arc::new(std::sync::atomic::AtomicI32::new(0));
+    let tid2 = tid.clone();
+    std::thread::Builder::new()
+        .name("blocking-op".into())
+        .spawn(move || {
+            tid2.store(unsafe { libc::syscall(libc::SYS_gettid) } as i32, Ordering::SeqCst);
+            let _ = tx.send(f());
+        })
+        .expect("spawn");
+    let started = std::time::Instant::now();
+    let mut asleep_seen = 0;
+    loop {
+        if let Ok(r) = rx.try_recv() {
+            return Some(r);
+        }
+        let t = tid.load(Ordering::SeqCst);
+        if t != 0 {
+            match thread_stat(t) {
+                Some(('S', _)) => {
+                    asleep_seen += 1;
+                    if asleep_seen >= 3 {
+                        return rx.try_recv().ok();
+                    }
+                }
+                _ => asleep_seen = 0,
+            }
+        }
+        if started.elapsed() > Duration::from_secs(600) {
+            panic!("MACHINERY: a blocking operation neither finished nor went to sleep within 600 s");
+        }
+        std::thread::yield_now();
     }
 }
 
